@@ -637,3 +637,463 @@ Proof.
 Qed.
 
 End Steps.
+
+(* ---- the trace predicate holds on every trace of the repaired model -------------------- *)
+Section Simulation.
+Context (sv : string -> N -> N -> N -> bool).
+Context (keys : N -> option N).
+Notation stepT := (step sv keys true).
+
+(* what P_C18 remembers is consistent with the model state *)
+Definition bind_ok (st : state) (b : bindings) : Prop :=
+  forall c, cs_closed (conns st c) = false -> bound b c = cs_sess (conns st c).
+
+Definition pobs (st : state) : obs := obs_of st {| applied := true; msgs := [] |}.
+
+Definition tables (prev : obs) (st : state) : Prop :=
+  ob_sessions prev = ob_sessions (pobs st) /\ ob_clients prev = clients st /\
+  ob_open prev = mopen st /\ ob_pending prev = ob_pending (pobs st).
+
+Lemma chk_step_prev : forall b prev st o ob,
+  tables prev st -> chk_step sv keys b prev o ob = chk_step sv keys b (pobs st) o ob.
+Proof.
+  intros b prev st o ob [H1 [H2 [H3 H4]]].
+  unfold chk_step, chk_sessions, chk_prehello, chk_cleanup, chk_ids, same_state, sids.
+  rewrite H1, H2, H3, H4. reflexivity.
+Qed.
+
+Lemma sids_obs : forall st out, sids (obs_of st out) = map ss_sid (sessions st).
+Proof. intros. unfold sids, obs_of; simpl. rewrite map_map. reflexivity. Qed.
+
+Lemma new_sids_nil : forall (l l' : list N), (forall x, In x l' -> In x l) ->
+  filter (fun s => negb (memN s l)) l' = [].
+Proof.
+  intros l l' H. induction l' as [|x r IH]; simpl; [reflexivity|].
+  assert (Hx : memN x l = true) by (apply memN_In; apply H; left; reflexivity).
+  rewrite Hx. simpl. apply IH. intros y Hy. apply H. right; assumption.
+Qed.
+
+Lemma owners_live : forall st out, Inv st ->
+  forallb (fun e => memN (e_owner e) (sids (obs_of st out)))
+          (ob_clients (obs_of st out) ++ ob_open (obs_of st out)) = true.
+Proof.
+  intros st out H. rewrite sids_obs. simpl. apply forallb_forall. intros e He.
+  apply memN_In. apply in_app_iff in He.
+  assert (Ho : owns_entry (sessions st) e).
+  { destruct H. destruct He; auto. }
+  destruct Ho as [s [Hs [Hsid _]]]. apply in_map_iff. exists s. tauto.
+Qed.
+
+Lemma send_open : forall st c m, cs_closed (conns st c) = false -> send st c m = [(c, m)].
+Proof. intros st c m H. unfold send. rewrite H. reflexivity. Qed.
+
+Definition not_hello (m : msg) : Prop := match m with MHello _ => False | _ => True end.
+
+Lemma hello_sids_send : forall st c m, not_hello m -> hello_sids (send st c m) = [].
+Proof. intros st c m H. unfold send. destruct (cs_closed (conns st c)); [reflexivity|]. destruct m; simpl in *; tauto. Qed.
+
+Lemma hello_sids_send_sess : forall st sid m, not_hello m -> hello_sids (send_sess st sid m) = [].
+Proof. intros st sid m H. unfold send_sess. destruct (find_sess sid (sessions st)); [apply hello_sids_send; assumption | reflexivity]. Qed.
+
+Lemma bind_step_send : forall b st c m, not_hello m -> bind_step b (send st c m) = b.
+Proof. intros b st c m H. unfold send, bind_step. destruct (cs_closed (conns st c)); [reflexivity|]. destruct m; simpl in *; tauto. Qed.
+
+Lemma bind_step_send_sess : forall b st sid m, not_hello m -> bind_step b (send_sess st sid m) = b.
+Proof. intros b st sid m H. unfold send_sess. destruct (find_sess sid (sessions st)); [apply bind_step_send; assumption | reflexivity]. Qed.
+
+Lemma pobs_same : forall st out, same_state (pobs st) (obs_of st out) = true.
+Proof. intros. apply same_state_refl; reflexivity. Qed.
+
+Lemma find_entry_mem : forall id l e, find_entry id l = Some e -> memN id (ids l) = true.
+Proof.
+  intros id l e H. apply find_entry_some in H. destruct H as [H1 H2]. apply memN_In.
+  unfold ids. apply in_map_iff. exists e. tauto.
+Qed.
+
+(* the connection an operation is a message of *)
+Definition conn_of (o : op) : option N :=
+  match o with
+  | OHello c _ _ | OResume c _ | OResumeBad c | OCmd c _ | OPayload c _ _ | OBye c
+  | OUnknownType c | OMalformed c _ => Some c
+  | _ => None
+  end.
+
+(* an operation that was not executed *)
+Lemma skip_ok : forall st b o,
+  chk_step sv keys b (pobs st) o (obs_of st {| applied := false; msgs := [] |}) = true.
+Proof. intros. unfold chk_step. simpl. apply pobs_same. Qed.
+
+(* an operation that is answered with an error and changes nothing *)
+Lemma err_ok : forall st b o c e, Inv st ->
+  conn_of o = Some c -> (forall c', o = OBye c' -> bound b c' = None) ->
+  chk_step sv keys b (pobs st) o (obs_of st {| applied := true; msgs := [(c, MErr e)] |}) = true.
+Proof.
+  intros st b o c e HI Hc Hbye. unfold chk_step. cbn [ob_applied obs_of applied].
+  assert (Hnew : filter (fun s => negb (memN s (sids (pobs st)))) (sids (obs_of st {| applied := true; msgs := [(c, MErr e)] |})) = []).
+  { apply new_sids_nil. intros x Hx. rewrite sids_obs in Hx. unfold pobs. rewrite sids_obs. exact Hx. }
+  apply andb_true_iff; split; [apply andb_true_iff; split; [apply andb_true_iff; split|]|].
+  - unfold chk_sessions. rewrite Hnew. destruct o; reflexivity.
+  - unfold chk_prehello. destruct o; simpl in Hc; try discriminate; inversion Hc; subst; simpl; try reflexivity;
+      destruct (bound b c); try reflexivity; rewrite N.eqb_refl; simpl; apply pobs_same.
+  - unfold chk_cleanup. rewrite owners_live by assumption.
+    destruct o; simpl in Hc; try discriminate; try reflexivity.
+    rewrite (Hbye c0 eq_refl). reflexivity.
+  - unfold chk_ids. destruct (named_id o) as [[c1 id]|] eqn:En; [|reflexivity].
+    assert (c1 = c) by (destruct o as [| | |? k| | | | | | | |]; simpl in *; try discriminate; [destruct k|]; simpl in *; congruence).
+    subst c1. cbn [ob_msgs obs_of msgs ob_clients ob_open]. 
+    assert (Herr : only_errors_to c [(c, MErr e)] = true) by (simpl; rewrite N.eqb_refl; reflexivity).
+    rewrite Herr. apply andb_true_iff. split; [destruct (memN id (ids (ob_clients (pobs st)))); reflexivity|].
+    destruct (is_delete o); [|reflexivity].
+    simpl. rewrite !andb_negb_r. simpl. unfold cmsg_eqb. simpl. rewrite andb_false_r. reflexivity.
+Qed.
+
+Lemma chk_sessions_quiet : forall st st' o out,
+  (forall x, In x (map ss_sid (sessions st')) -> In x (map ss_sid (sessions st))) ->
+  hello_sids (msgs out) = [] ->
+  chk_sessions sv keys (pobs st) o (obs_of st' out) = true.
+Proof.
+  intros st st' o out Hs Hh. unfold chk_sessions.
+  rewrite new_sids_nil by (intros x Hx; rewrite sids_obs in Hx; unfold pobs; rewrite sids_obs; auto).
+  cbn [ob_msgs obs_of]. rewrite Hh. destruct o; reflexivity.
+Qed.
+
+Lemma chk_cleanup_plain : forall st' b prev o out, Inv st' ->
+  match o with OMcuLost | OBye _ | OExpire _ => False | _ => True end ->
+  chk_cleanup b prev o (obs_of st' out) = true.
+Proof.
+  intros st' b prev o out HI Ho. unfold chk_cleanup. rewrite owners_live by assumption.
+  destruct o; try reflexivity; contradiction.
+Qed.
+
+Lemma upd_conn_same : forall f c v, upd_conn f c v c = v.
+Proof. intros. unfold upd_conn. rewrite N.eqb_refl. reflexivity. Qed.
+Lemma upd_conn_other : forall f c v c', c' <> c -> upd_conn f c v c' = f c'.
+Proof. intros f c v c' H. unfold upd_conn. apply N.eqb_neq in H. rewrite H. reflexivity. Qed.
+
+Lemma bind_ok_upd : forall st st' b c v,
+  conns st' = upd_conn (conns st) c v -> bind_ok st b ->
+  (cs_closed v = false -> cs_closed (conns st c) = false /\ cs_sess v = cs_sess (conns st c)) ->
+  bind_ok st' b.
+Proof.
+  intros st st' b c v Hc Hb Hv c' Hc'. rewrite Hc in *.
+  destruct (N.eq_dec c' c) as [E|E].
+  - subst c'. rewrite upd_conn_same in *. destruct (Hv Hc') as [H1 H2]. rewrite H2. apply Hb; assumption.
+  - rewrite upd_conn_other in * by assumption. apply Hb; assumption.
+Qed.
+
+Lemma bind_ok_conns : forall st st' b, conns st' = conns st -> bind_ok st b -> bind_ok st' b.
+Proof. intros st st' b Hc Hb c' Hc'. rewrite Hc in *. apply Hb; assumption. Qed.
+
+Lemma bound_cons_same : forall b c s, bound ((c, s) :: b) c = Some s.
+Proof. intros. simpl. rewrite N.eqb_refl. reflexivity. Qed.
+Lemma bound_cons_other : forall b c s c', c' <> c -> bound ((c, s) :: b) c' = bound b c'.
+Proof. intros b c s c' H. simpl. apply N.eqb_neq in H. rewrite N.eqb_sym, H. reflexivity. Qed.
+
+Lemma hello_sids_flat : forall st (l : list sess) m, not_hello m ->
+  hello_sids (flat_map (fun s => send st (ss_conn s) m) l) = [].
+Proof.
+  intros st l m H. induction l as [|s r IH]; simpl; [reflexivity|].
+  unfold hello_sids in *. rewrite flat_map_app. fold (hello_sids (send st (ss_conn s) m)).
+  rewrite hello_sids_send by assumption. simpl. exact IH.
+Qed.
+
+Lemma bind_step_flat : forall b st (l : list sess) m, not_hello m ->
+  bind_step b (flat_map (fun s => send st (ss_conn s) m) l) = b.
+Proof.
+  intros b st l m H. unfold bind_step. induction l as [|s r IH]; simpl; [reflexivity|].
+  rewrite flat_map_app, <- app_assoc, IH.
+  change (bind_step b (send st (ss_conn s) m) = b). apply bind_step_send; assumption.
+Qed.
+
+Lemma forallb_const_true : forall {A} (l : list A), forallb (fun _ => true) l = true.
+Proof. induction l; simpl; auto. Qed.
+
+Ltac four := apply andb_true_iff; split; [apply andb_true_iff; split; [apply andb_true_iff; split|]|].
+
+(* close_session, as used by bye and expiry *)
+Lemma close_ok : forall st b sid r o, Inv st -> bind_ok st b ->
+  match o with
+  | OBye c => cs_closed (conns st c) = false /\ cs_sess (conns st c) = Some sid
+  | OExpire s => s = sid
+  | _ => False
+  end ->
+  let st' := fst (close_session st sid r) in
+  let out := {| applied := true; msgs := snd (close_session st sid r) |} in
+  Inv st' ->
+  chk_step sv keys b (pobs st) o (obs_of st' out) = true /\ bind_ok st' (bind_step b (msgs out)).
+Proof.
+  intros st b sid r o HI Hb Ho st' out HI'.
+  assert (Hgone : ~ In sid (map ss_sid (sessions st'))).
+  { unfold st', close_session. destruct (find_sess sid (sessions st)) eqn:E; simpl.
+    - apply del_sess_gone.
+    - apply find_sess_none; assumption. }
+  assert (Hincl : forall x, In x (map ss_sid (sessions st')) -> In x (map ss_sid (sessions st))).
+  { unfold st', close_session. destruct (find_sess sid (sessions st)) eqn:E; simpl; [apply sids_del_sess_incl | auto]. }
+  assert (Hmsgs : hello_sids (msgs out) = [] /\ bind_step b (msgs out) = b).
+  { unfold out, close_session. destruct (find_sess sid (sessions st)) eqn:E; simpl; [|split; reflexivity].
+    split; [apply hello_sids_send | apply bind_step_send]; exact I. }
+  destruct Hmsgs as [Hm1 Hm2]. split.
+  - unfold chk_step. cbn [ob_applied obs_of applied out]. four.
+    + apply chk_sessions_quiet; assumption.
+    + unfold chk_prehello. destruct o; try contradiction; simpl; [|reflexivity].
+      destruct Ho as [Ho1 Ho2]. rewrite (Hb c Ho1), Ho2. reflexivity.
+    + unfold chk_cleanup. rewrite owners_live by assumption. rewrite sids_obs.
+      apply memN_false in Hgone.
+      destruct o; try contradiction; simpl.
+      * destruct Ho as [Ho1 Ho2]. rewrite (Hb c Ho1), Ho2, Hgone. reflexivity.
+      * subst. rewrite Hgone. reflexivity.
+    + unfold chk_ids. destruct o; try contradiction; reflexivity.
+  - rewrite Hm2. unfold st', close_session. destruct (find_sess sid (sessions st)) as [s|] eqn:E; simpl; [|exact Hb].
+    eapply bind_ok_upd; [reflexivity | exact Hb | simpl; discriminate].
+Qed.
+
+(* a reply to a welcomed connection naming an id that resolves; state unchanged
+   (get-publisher-streams, payload) *)
+Lemma reply_ok : forall st b o c m id e s, Inv st ->
+  named_id o = Some (c, id) -> is_delete o = false -> client_msg_conn o = Some c ->
+  bound b c = Some s -> find_entry id (clients st) = Some e -> not_hello m ->
+  chk_step sv keys b (pobs st) o (obs_of st {| applied := true; msgs := [(c, m)] |}) = true.
+Proof.
+  intros st b o c m id e s HI Hn Hd Hc Hbd Hf Hm. unfold chk_step. cbn [ob_applied obs_of applied]. four.
+  - apply chk_sessions_quiet; [auto|]. destruct m; simpl in *; tauto.
+  - unfold chk_prehello. rewrite Hc, Hbd. reflexivity.
+  - apply chk_cleanup_plain; [assumption|].
+    destruct o; simpl in Hn; try discriminate; exact I.
+  - unfold chk_ids. rewrite Hn, Hd. cbn [ob_clients pobs obs_of].
+    rewrite (find_entry_mem _ _ _ Hf). reflexivity.
+Qed.
+
+(* delete-publisher / delete-subscriber *)
+Lemma delete_ok : forall st b c sid k id o, Inv st -> bind_ok st b ->
+  cs_closed (conns st c) = false -> cs_sess (conns st c) = Some sid ->
+  o = OCmd c (match k with Pub => CDeletePub id | Sub => CDeleteSub id end) ->
+  Inv (fst (delete st c sid k id)) ->
+  chk_step sv keys b (pobs st) o (obs_of (fst (delete st c sid k id)) (snd (delete st c sid k id))) = true /\
+  bind_ok (fst (delete st c sid k id)) (bind_step b (msgs (snd (delete st c sid k id)))).
+Proof.
+  intros st b c sid k id o HI Hb Ecl Es Ho HI'.
+  assert (Hbc : bound b c = Some sid) by (rewrite (Hb c Ecl); exact Es).
+  assert (Hconn : conn_of o = Some c) by (subst o; reflexivity).
+  assert (Hnb : forall c', o = OBye c' -> bound b c' = None) by (intros c' E; subst o; discriminate).
+  unfold delete in *.
+  destruct (find_entry id (clients st)) as [e|] eqn:Ef; simpl in *;
+    [| rewrite send_open by assumption; split; [apply err_ok; assumption | exact Hb]].
+  destruct (kind_eqb (e_kind e) k) eqn:Ek; simpl in *;
+    [| rewrite send_open by assumption; split; [apply err_ok; assumption | exact Hb]].
+  destruct (find_sess sid (sessions st)) as [s|] eqn:Efs; simpl in *;
+    [| rewrite send_open by assumption; split; [apply err_ok; assumption | exact Hb]].
+  destruct (owns s k id) eqn:Eo; simpl in *;
+    [| rewrite send_open by assumption; split; [apply err_ok; assumption | exact Hb]].
+  rewrite send_open by assumption. split; [|eapply bind_ok_conns; [reflexivity | exact Hb]].
+  (* the object belongs to the asking session *)
+  apply find_sess_some in Efs. destruct Efs as [Hin Hsid].
+  assert (Hent : find_entry id (clients st) = Some (id, k, sid)).
+  { destruct HI. apply find_entry_unique; [assumption | | reflexivity].
+    rewrite <- Hsid. apply inv_tab0; assumption. }
+  unfold chk_step. cbn [ob_applied obs_of applied]. four.
+  - apply chk_sessions_quiet; [|reflexivity]. simpl.
+    rewrite sids_upd_sess; [auto | intros; apply ss_sid_forget].
+  - unfold chk_prehello. subst o. destruct k; simpl; rewrite Hbc; reflexivity.
+  - apply chk_cleanup_plain; [assumption|]. subst o. destruct k; exact I.
+  - unfold chk_ids. subst o.
+    assert (Hmem : memN id (ids (ob_clients (pobs st))) = true) by (apply (find_entry_mem _ _ _ Hent)).
+    destruct k; cbn [named_id is_delete]; rewrite Hmem; cbn [andb];
+      cbn [ob_clients pobs obs_of]; rewrite Hent, Hbc; simpl; rewrite N.eqb_refl;
+      match goal with |- (if ?x then true else true) = true => destruct x; reflexivity end.
+Qed.
+
+(* the continuation of a creation *)
+Lemma mcu_done_ok : forall st b tok r, Inv st -> bind_ok st b ->
+  Inv (fst (mcu_done true st tok r)) ->
+  chk_step sv keys b (pobs st) (OMcuDone tok r)
+     (obs_of (fst (mcu_done true st tok r)) (snd (mcu_done true st tok r))) = true /\
+  bind_ok (fst (mcu_done true st tok r)) (bind_step b (msgs (snd (mcu_done true st tok r)))).
+Proof.
+  intros st b tok r HI Hb HI'.
+  assert (Hmain : forall st' out, Inv st' ->
+            (forall x, In x (map ss_sid (sessions st')) -> In x (map ss_sid (sessions st))) ->
+            hello_sids (msgs out) = [] -> applied out = true ->
+            chk_step sv keys b (pobs st) (OMcuDone tok r) (obs_of st' out) = true).
+  { intros st' out Hi Hs Hh Ha. unfold chk_step. cbn [ob_applied obs_of]. rewrite Ha. four.
+    - apply chk_sessions_quiet; assumption.
+    - reflexivity.
+    - apply chk_cleanup_plain; [assumption | exact I].
+    - reflexivity. }
+  unfold mcu_done in *.
+  destruct (find (fun p => p_tok p =? tok) (pendings st)) as [p|] eqn:E; simpl in *.
+  2: { split; [apply Hmain; auto | exact Hb]. }
+  destruct r; simpl in *.
+  - destruct (find_sess (p_sid p) (sessions st)) as [s0|] eqn:Es; simpl in *.
+    + split.
+      * apply Hmain; [assumption | | apply hello_sids_send_sess; exact I | reflexivity].
+        simpl. rewrite sids_upd_sess; [auto | intros; apply ss_sid_remember].
+      * rewrite bind_step_send_sess by exact I.
+        eapply bind_ok_upd; [reflexivity | exact Hb | simpl; auto].
+    + split.
+      * apply Hmain; [assumption | auto | reflexivity | reflexivity].
+      * eapply bind_ok_upd; [reflexivity | exact Hb | simpl; auto].
+  - split.
+    + apply Hmain; [assumption | auto | apply hello_sids_send_sess; exact I | reflexivity].
+    + rewrite bind_step_send_sess by exact I.
+      eapply bind_ok_upd; [reflexivity | exact Hb | simpl; auto].
+  - split.
+    + apply Hmain; [assumption | auto | apply hello_sids_send_sess; exact I | reflexivity].
+    + rewrite bind_step_send_sess by exact I.
+      eapply bind_ok_upd; [reflexivity | exact Hb | simpl; auto].
+Qed.
+
+Ltac skip_case Hb := simpl; split; [apply skip_ok | exact Hb].
+Ltac err_case Hb :=
+  simpl; rewrite ?send_open by assumption;
+  split; [apply err_ok; [assumption | reflexivity | intros ? E; first [discriminate | inversion E; subst; congruence]] | exact Hb].
+
+Lemma step_ok : forall st b o, Inv st -> bind_ok st b ->
+  chk_step sv keys b (pobs st) o (obs_of (fst (stepT st o)) (snd (stepT st o))) = true /\
+  bind_ok (fst (stepT st o)) (bind_step b (msgs (snd (stepT st o)))).
+Proof.
+  intros st b o HI Hb. pose proof (Inv_step sv keys st o HI) as HI'.
+  destruct o as [c now t | c sid | c | c k | c id p | c | c | c bd | c | sid | | tok r];
+    cbn [step] in *; unfold on_conn in *;
+    try (destruct (cs_closed (conns st c)) eqn:Ecl; [skip_case Hb|];
+         destruct (cs_busy (conns st c)) eqn:Ebu; [skip_case Hb|];
+         cbn [orb] in *; pose proof (Hb c Ecl) as Hbc).
+  - (* hello *)
+    destruct (cs_sess (conns st c)) as [sid0|] eqn:Es; [err_case Hb|].
+    destruct (check_token sv keys now t) as [e|] eqn:Et; [err_case Hb|].
+    simpl in *. split.
+    + unfold chk_step. cbn [ob_applied obs_of applied]. four.
+      * unfold chk_sessions. cbn [ob_msgs obs_of msgs]. simpl hello_sids. cbn [null].
+        rewrite andb_false_r. apply check_token_spec; assumption.
+      * reflexivity.
+      * apply chk_cleanup_plain; [assumption | exact I].
+      * reflexivity.
+    + intros c' Hc'. simpl in Hc'. simpl conns. unfold bind_step; simpl.
+      destruct (N.eq_dec c' c) as [E|E].
+      * subst c'. rewrite upd_conn_same. simpl. rewrite N.eqb_refl. reflexivity.
+      * rewrite upd_conn_other in * by assumption. apply N.eqb_neq in E. rewrite N.eqb_sym, E.
+        apply Hb; assumption.
+  - (* resume *)
+    destruct (cs_sess (conns st c)) as [sid0|] eqn:Es; [err_case Hb|].
+    destruct (find_sess sid (sessions st)) as [s|] eqn:Ef; [|err_case Hb].
+    simpl in *. pose proof (find_sess_some _ _ _ Ef) as [Hin Hsid].
+    assert (Hh : hello_sids ((send st (ss_conn s) MEvLoad ++ send st (ss_conn s) (MBye RResumed)) ++ [(c, MHello sid); (c, MEvLoad)]) = [sid]).
+    { unfold send. destruct (cs_closed (conns st (ss_conn s))); reflexivity. }
+    assert (Hbs : bind_step b ((send st (ss_conn s) MEvLoad ++ send st (ss_conn s) (MBye RResumed)) ++ [(c, MHello sid); (c, MEvLoad)]) = (c, sid) :: b).
+    { unfold send. destruct (cs_closed (conns st (ss_conn s))); reflexivity. }
+    split.
+    + unfold chk_step. cbn [ob_applied obs_of applied]. four.
+      * unfold chk_sessions. cbn [ob_msgs obs_of msgs]. rewrite Hh.
+        rewrite new_sids_nil.
+        2:{ intros x Hx. rewrite sids_obs in Hx. simpl in Hx. unfold pobs. rewrite sids_obs.
+            rewrite sids_upd_sess in Hx; [assumption | reflexivity]. }
+        simpl. unfold pobs. rewrite sids_obs.
+        assert (Hm : memN sid (map ss_sid (sessions st)) = true)
+          by (apply memN_In; apply in_map_iff; exists s; tauto).
+        rewrite Hm. reflexivity.
+      * reflexivity.
+      * apply chk_cleanup_plain; [assumption | exact I].
+      * reflexivity.
+    + rewrite Hbs. intros c' Hc'. simpl in Hc'. simpl conns.
+      destruct (N.eq_dec c' c) as [E|E].
+      * subst c'. rewrite upd_conn_same. simpl. rewrite N.eqb_refl. reflexivity.
+      * rewrite upd_conn_other in * by assumption. rewrite bound_cons_other by assumption.
+        destruct (N.eq_dec c' (ss_conn s)) as [E2|E2].
+        -- subst c'. rewrite upd_conn_same in Hc'. simpl in Hc'. discriminate.
+        -- rewrite upd_conn_other in * by assumption. apply Hb; assumption.
+  - (* resume with an id that was never issued *)
+    destruct (cs_sess (conns st c)) as [sid0|] eqn:Es; err_case Hb.
+  - (* command *)
+    destruct (cs_sess (conns st c)) as [sid0|] eqn:Es; [|err_case Hb].
+    assert (Hbd : bound b c = Some sid0) by congruence.
+    destruct k as [ | | id | id | id | ]; cbn [command] in *.
+    + (* create-publisher *)
+      unfold create in *. simpl in *. split.
+      * unfold chk_step. cbn [ob_applied obs_of applied]. four.
+        -- apply chk_sessions_quiet; [auto | reflexivity].
+        -- unfold chk_prehello. simpl. rewrite Hbd. reflexivity.
+        -- apply chk_cleanup_plain; [assumption | exact I].
+        -- reflexivity.
+      * eapply bind_ok_upd; [reflexivity | exact Hb | simpl; auto].
+    + unfold create in *. simpl in *. split.
+      * unfold chk_step. cbn [ob_applied obs_of applied]. four.
+        -- apply chk_sessions_quiet; [auto | reflexivity].
+        -- unfold chk_prehello. simpl. rewrite Hbd. reflexivity.
+        -- apply chk_cleanup_plain; [assumption | exact I].
+        -- reflexivity.
+      * eapply bind_ok_upd; [reflexivity | exact Hb | simpl; auto].
+    + apply (delete_ok st b c sid0 Pub id); auto.
+    + apply (delete_ok st b c sid0 Sub id); auto.
+    + (* get-publisher-streams *)
+      destruct (find_entry id (clients st)) as [e|] eqn:Ef; [|err_case Hb].
+      destruct (kind_eqb (e_kind e) Pub); [|err_case Hb].
+      simpl. rewrite send_open by assumption. split; [|exact Hb].
+      eapply reply_ok; try eassumption; try reflexivity; try exact I.
+    + err_case Hb.
+  - (* payload *)
+    destruct (cs_sess (conns st c)) as [sid0|] eqn:Es; [|err_case Hb].
+    assert (Hbd : bound b c = Some sid0) by congruence.
+    unfold payload in *.
+    destruct (find_entry id (clients st)) as [e|] eqn:Ef; [|err_case Hb].
+    destruct p; [| |err_case Hb]; simpl; rewrite send_open by assumption; (split; [|exact Hb]);
+      eapply reply_ok; try eassumption; try reflexivity; try exact I.
+  - (* bye *)
+    destruct (cs_sess (conns st c)) as [sid0|] eqn:Es; [|err_case Hb].
+    pose proof (close_ok st b sid0 RClosed (OBye c) HI Hb (conj Ecl Es)) as Hc.
+    destruct (close_session st sid0 RClosed) as [st1 out1]. simpl in *. apply Hc; assumption.
+  - (* unknown message type *)
+    destruct (cs_sess (conns st c)) as [sid0|] eqn:Es; err_case Hb.
+  - (* malformed *)
+    err_case Hb.
+  - (* drop *)
+    destruct (cs_closed (conns st c)) eqn:Ecl; [skip_case Hb|].
+    simpl in *. split.
+    + unfold chk_step. cbn [ob_applied obs_of applied]. four.
+      * apply chk_sessions_quiet; [auto | reflexivity].
+      * reflexivity.
+      * apply chk_cleanup_plain; [assumption | exact I].
+      * reflexivity.
+    + eapply bind_ok_upd; [reflexivity | exact Hb | simpl; discriminate].
+  - (* expire *)
+    pose proof (close_ok st b sid RExpired (OExpire sid) HI Hb eq_refl) as Hc.
+    destruct (close_session st sid RExpired) as [st1 out1]. simpl in *. apply Hc; assumption.
+  - (* media server lost *)
+    simpl in *. split.
+    + unfold chk_step. cbn [ob_applied obs_of applied]. four.
+      * apply chk_sessions_quiet; [|apply hello_sids_flat; exact I].
+        simpl. rewrite map_map. simpl. auto.
+      * reflexivity.
+      * unfold chk_cleanup. rewrite owners_live by assumption.
+        cbn [ob_clients ob_open obs_of andb].
+        destruct HI. rewrite (drop_all_nil (sessions st) (clients st)) by assumption.
+        rewrite (drop_all_nil (sessions st) (mopen st)) by assumption.
+        simpl. apply forallb_const_true.
+      * reflexivity.
+    + rewrite bind_step_flat by exact I. eapply bind_ok_conns; [reflexivity | exact Hb].
+  - (* a creation completes *)
+    apply mcu_done_ok; assumption.
+Qed.
+
+(* ---- the headline: P_C18 holds on every trace of the repaired model ------------------- *)
+Lemma tables_pobs : forall st out, tables (obs_of st out) st.
+Proof. intros. unfold tables, pobs. simpl. auto. Qed.
+
+Lemma P_from_ok : forall ops st b prev, Inv st -> bind_ok st b -> tables prev st ->
+  P_from sv keys b prev (trace_from sv keys true st ops) = true.
+Proof.
+  induction ops as [|o r IH]; intros st b prev HI Hb Ht; [reflexivity|].
+  cbn [trace_from]. pose proof (step_ok st b o HI Hb) as [H1 H2].
+  pose proof (Inv_step sv keys st o HI) as HI'.
+  destruct (stepT st o) as [st' out] eqn:E. cbn [fst snd] in *. cbn [P_from].
+  rewrite (chk_step_prev _ _ _ _ _ Ht), H1. cbn [andb].
+  apply IH; [assumption | exact H2 | apply tables_pobs].
+Qed.
+
+Theorem P_holds : forall ops, P_C18 sv keys (trace_of sv keys true ops) = true.
+Proof.
+  intros ops. unfold P_C18, trace_of. apply P_from_ok.
+  - apply Inv_init.
+  - intros c _. reflexivity.
+  - unfold tables, pobs, obs0. simpl. auto.
+Qed.
+
+End Simulation.
